@@ -36,7 +36,7 @@ func VerifC18_DirStructure() {
 		err = ds.EnsureAbsPath(root + rt.StrN("p", 0, n))
 	case 4:
 		// an arbitrary short path
-		err = ds.EnsureAbsPath(rt.StrN("p", 0, 4))
+		err = ds.EnsureAbsPath(rt.Abs(rt.StrN("p", 0, 4)))
 	case 1:
 		err = ds.EnsureRelPath(rt.StrN("p", 0, n))
 	case 2:
